@@ -17,35 +17,44 @@
 (*               mode it is a XercesLiaisonXalanDOMStringPool whose get() takes an XMLMutex         *)
 (*               (PoolLocked), otherwise a plain XalanDOMStringPool                                 *)
 (*                                                                                                *)
+(*   statics     the library's own static data (.data/.bss of libxalan-c): shared by all threads   *)
+(*               whatever they share on purpose.  StaticScratch models a function-local `static`     *)
+(*               scratch buffer (e.g. the digit buffer of xsl:number's alphabetic formatter made     *)
+(*               static): every use fills it and then reads it back                                  *)
+(*                                                                                                *)
 (* A lazy field is used the way the code does it: [lock] - look - if missing: build it with        *)
 (* several stores (torn in between) - use - [unlock].                                              *)
 EXTENDS Naturals, Sequences, FiniteSets
 
-CONSTANTS Threads, SourceKind, HasIds, PrebuiltWrapper, PoolLocked, MaxRuns
+CONSTANTS Threads, SourceKind, HasIds, PrebuiltWrapper, PoolLocked, StaticScratch, MaxRuns
 
 VARIABLES s, loc
 
 NoLockV  == "nolock"
 XLocks   == {"poolMutex"}
-XObjects == IF SourceKind = "native" THEN {"stylesheet", "source"} ELSE {"stylesheet", "wrapper", "pool"}
+XObjects == (IF SourceKind = "native" THEN {"stylesheet", "source"} ELSE {"stylesheet", "wrapper", "pool"})
+            \cup (IF StaticScratch THEN {"statics"} ELSE {})
 XFieldsOf(o) == CASE o = "stylesheet" -> {"templates", "xpaths"}
                   [] o = "source"     -> {"nodes", "idIndexHead"}
                   [] o = "wrapper"    -> {"wnodes"}
                   [] o = "pool"       -> {"strings"}
+                  [] o = "statics"    -> {"numberBuf"}
 XTag(o, f) == CASE o = "stylesheet" -> "eager"
                 [] o = "source" /\ f = "nodes" -> "eager"
                 [] o = "source" /\ f = "idIndexHead" -> (IF HasIds THEN "eager" ELSE "lazy")
                 [] o = "wrapper" -> (IF PrebuiltWrapper THEN "eager" ELSE "lazy")
                 [] o = "pool" -> "lazy"
+                [] o = "statics" -> "scratch"
 XGuard(o, f) == IF o = "pool" /\ PoolLocked THEN "poolMutex" ELSE NoLockV
 
 S == INSTANCE Sharing WITH Objects <- XObjects, FieldsOf <- XFieldsOf, Tag <- XTag, Guard <- XGuard,
                            Locks <- XLocks, NoLock <- NoLockV
 
 (* what one transformation touches, in program order *)
-UseOrder == IF SourceKind = "native"
-            THEN << <<"stylesheet", "templates">>, <<"stylesheet", "xpaths">>, <<"source", "nodes">>, <<"source", "idIndexHead">> >>
-            ELSE << <<"stylesheet", "templates">>, <<"stylesheet", "xpaths">>, <<"wrapper", "wnodes">>, <<"pool", "strings">> >>
+UseOrder == (IF SourceKind = "native"
+             THEN << <<"stylesheet", "templates">>, <<"stylesheet", "xpaths">>, <<"source", "nodes">>, <<"source", "idIndexHead">> >>
+             ELSE << <<"stylesheet", "templates">>, <<"stylesheet", "xpaths">>, <<"wrapper", "wnodes">>, <<"pool", "strings">> >>)
+            \o (IF StaticScratch THEN << <<"statics", "numberBuf">> >> ELSE << >>)
 Uses == {UseOrder[i] : i \in 1..Len(UseOrder)}
 
 Idle == [pos |-> 0, ph |-> "idle"]
@@ -64,12 +73,13 @@ Advance(t) == loc' = [loc EXCEPT ![t] = [pos |-> loc[t].pos + 1, ph |-> "pick"]]
 Phase(t, p) == loc' = [loc EXCEPT ![t].ph = p]
 Guarded(of) == XGuard(of[1], of[2]) # NoLockV
 Lazy(of)    == XTag(of[1], of[2]) = "lazy"
+Scratch(of) == XTag(of[1], of[2]) = "scratch"
 
 Start(t) == /\ S!PreStart(s, t) /\ s.runs[t] < MaxRuns
             /\ s' = S!DoStart(s, t)
             /\ loc' = [loc EXCEPT ![t] = [pos |-> 1, ph |-> "pick"]]
 
-ReadEager(t) == /\ Active(t) /\ loc[t].ph = "pick" /\ ~Lazy(Cur(t))
+ReadEager(t) == /\ Active(t) /\ loc[t].ph = "pick" /\ ~Lazy(Cur(t)) /\ ~Scratch(Cur(t))
                 /\ S!PreRead(s, t, Cur(t)[1], Cur(t)[2])
                 /\ s' = S!DoRead(s, t, Cur(t)[1], Cur(t)[2])
                 /\ Advance(t)
@@ -88,15 +98,24 @@ Check(t) == /\ Active(t) /\ Lazy(Cur(t))
             /\ IF s.val[Cur(t)] = "none" THEN Phase(t, "wr1")
                ELSE IF Guarded(Cur(t)) THEN Phase(t, "rel") ELSE Advance(t)
 
-WriteBegin(t) == /\ Active(t) /\ loc[t].ph = "wr1"
+(* a scratch buffer is filled by every use, whatever is in it *)
+WriteBegin(t) == /\ Active(t) /\ (loc[t].ph = "wr1" \/ (loc[t].ph = "pick" /\ Scratch(Cur(t))))
                  /\ S!PreWrite(s, t, Cur(t)[1], Cur(t)[2])
                  /\ s' = S!DoWrite(s, t, Cur(t)[1], Cur(t)[2], "torn")
                  /\ Phase(t, "wr2")
 
 WriteEnd(t) == /\ Active(t) /\ loc[t].ph = "wr2"
                /\ S!PreWrite(s, t, Cur(t)[1], Cur(t)[2])
-               /\ s' = S!DoRead(S!DoWrite(s, t, Cur(t)[1], Cur(t)[2], "ok"), t, Cur(t)[1], Cur(t)[2])
-               /\ IF Guarded(Cur(t)) THEN Phase(t, "rel") ELSE Advance(t)
+               /\ IF Scratch(Cur(t))
+                  THEN s' = S!DoWrite(s, t, Cur(t)[1], Cur(t)[2], "ok") /\ Phase(t, "use")
+                  ELSE /\ s' = S!DoRead(S!DoWrite(s, t, Cur(t)[1], Cur(t)[2], "ok"), t, Cur(t)[1], Cur(t)[2])
+                       /\ IF Guarded(Cur(t)) THEN Phase(t, "rel") ELSE Advance(t)
+
+(* ... and read back afterwards (the formatter copies the filled part into its result) *)
+UseScratch(t) == /\ Active(t) /\ loc[t].ph = "use"
+                 /\ S!PreRead(s, t, Cur(t)[1], Cur(t)[2])
+                 /\ s' = S!DoRead(s, t, Cur(t)[1], Cur(t)[2])
+                 /\ Advance(t)
 
 Release(t) == /\ Active(t) /\ loc[t].ph = "rel"
               /\ S!PreUnlock(s, t, XGuard(Cur(t)[1], Cur(t)[2]))
@@ -112,7 +131,7 @@ Join == S!PreJoin(s) /\ s' = S!DoJoin(s) /\ UNCHANGED loc
 
 Next == \/ \E o \in XObjects : Build(o) \/ Freeze(o)
         \/ \E t \in Threads : Start(t) \/ ReadEager(t) \/ Acquire(t) \/ Check(t) \/ WriteBegin(t)
-                                \/ WriteEnd(t) \/ Release(t) \/ Done(t)
+                                \/ WriteEnd(t) \/ UseScratch(t) \/ Release(t) \/ Done(t)
         \/ Join
 
 Spec == Init /\ [][Next]_vars
